@@ -365,6 +365,8 @@ def _check_visit(w, red, vis, ch, Xn, qcol, rcol, means, by_id,
             continue
         bump(counters, 'cell_nodes_exact')
         ia = cidx[a]
+        if lo[i].max() > 255:
+            bump(counters, 'cell_nodes_with_more_than_255_votes_for_a_child')
         if lo[i, ia] != lo[i].max():
             out.append(V('C02:not-plurality',
                          f'cell {cid} at {pkey}: assigned {a} with '
